@@ -226,7 +226,12 @@ def extra_race_runs(prop, tier, seed, report, scratch, specdir, racebin):
     groups = [
         ("denied_join", [[2], []],
          [{"setup": su, "procs": [op("J", 1, 2), op("R", 1, acc="Values")], "sched": []},
-          {"setup": su, "procs": [op("J", 1, 2), op("J", 1, 2)], "sched": []}]),
+          {"setup": su, "procs": [op("J", 1, 2), op("J", 1, 2)], "sched": []},
+          # whatever a refused join still has running when it returns must not touch the log: an identity change, an
+          # append and a size-bounded join issued next to it (and right after it)
+          {"setup": su, "procs": [op("J", 1, 2), op("SI", 1, n=3), op("SI", 1, n=1)], "sched": []},
+          {"setup": su, "procs": [op("J", 1, 2), op("A", 1, n=1), op("SI", 1, n=3)], "sched": []},
+          {"setup": su, "procs": [op("J", 1, 2), op("JB", 1, 2, n=2), op("SI", 1, n=3)], "sched": []}]),
         ("bounded_join", [[], []],
          [{"setup": su, "procs": [op("JB", 1, 2, n=2), other, op("R", 1, acc="Len")], "sched": []}
           for other in (op("R", 1, acc="Len"), op("R", 1, acc="Values"), op("R", 1, acc="GetEntries"), op("R", 1, acc="ToSnapshot"))]
